@@ -306,6 +306,16 @@ def run_project_case(case: dict) -> dict:
         root = d / "root"
         p = ensure_cls(case["p"])
         m = materialise(p, root, rnd, outside=d / "outside")
+        if case.get("git"):
+            # a Git work tree: everything tracked except what .gitignore says; raw extra files (e.g. broken configuration
+            # in an ignored directory) are written as given
+            for rel, content in case.get("raw_files", {}).items():
+                fp = root / rel
+                fp.parent.mkdir(parents=True, exist_ok=True)
+                fp.write_text(content)
+            env = dict(os.environ, GIT_CONFIG_GLOBAL="/dev/null", GIT_CONFIG_SYSTEM="/dev/null", HOME=str(d))
+            subprocess.run(["git", "init", "-q"], cwd=root, env=env, check=True, capture_output=True)
+            subprocess.run(["git", "add", "-A"], cwd=root, env=env, check=True, capture_output=True)
         obs = lint_obs(root, faults=m["faults"])
         return {"tid": case["tid"], "p": p, "checks": case["checks"], "label": case.get("label", ""), "obs": obs}
     finally:
